@@ -464,8 +464,15 @@ def _split_tuple_assignments(tree):
             if len(n.targets) == 1 and isinstance(n.value, ast.IfExp) and os.environ.get("VERIF_KEEP_IFEXP") != "1":
                 a = ast.copy_location(ast.Assign(targets=[n.targets[0]], value=n.value.body, type_comment=None), n)
                 b = ast.copy_location(ast.Assign(targets=[copy_target(n.targets[0])], value=n.value.orelse, type_comment=None), n)
-                return ast.copy_location(ast.If(test=n.value.test, body=[self.visit_Assign(a)] if not isinstance(self.visit_Assign(a), list) else self.visit_Assign(a),
-                                                orelse=[self.visit_Assign(b)] if not isinstance(self.visit_Assign(b), list) else self.visit_Assign(b)), n)
+                def arm(x):
+                    if dotted(x.value) is not None and dotted(x.value) == dotted(x.targets[0]):
+                        return [ast.copy_location(ast.Pass(), n)]          # `X = X`: nothing happens on this arm
+                    r_ = self.visit_Assign(x)
+                    return r_ if isinstance(r_, list) else [r_]
+                bb, oo = arm(a), arm(b)
+                if all(isinstance(x, ast.Pass) for x in oo):
+                    oo = []
+                return ast.copy_location(ast.If(test=n.value.test, body=bb, orelse=oo), n)
             # `X = X + e` (X a name or attribute path not occurring in e) is `X += e`
             if len(n.targets) == 1 and isinstance(n.targets[0], (ast.Name, ast.Attribute)) and isinstance(n.value, ast.BinOp) \
                     and isinstance(n.value.op, (ast.Add, ast.Sub)) and dotted(n.targets[0]) is not None \
